@@ -8,4 +8,5 @@ CONSTANTS
   MaxCands = 0
   SubBeforeExact = TRUE
   Positive = TRUE
+  QSplits = FALSE
 INVARIANT EmitTable
